@@ -1066,10 +1066,20 @@ class Interpreter(InterpreterBase, HoldableObject):
             if ast:
                 self._save_ast(subdir, ast)
 
-            subi = Interpreter(new_build, self.backend, subp_name, subdir, self.subproject_dir,
-                               default_options, ast=ast, relaxations=relaxations,
-                               user_defined_options=self.user_defined_options,
-                               cargo=cargo)
+            try:
+                subi = Interpreter(new_build, self.backend, subp_name, subdir, self.subproject_dir,
+                                   default_options, ast=ast, relaxations=relaxations,
+                                   user_defined_options=self.user_defined_options,
+                                   cargo=cargo)
+            except Exception:
+                # The files that were read define the build even if the subproject
+                # ends up disabled: editing them must trigger a reconfigure.
+                if ast is None:
+                    self.build_def_files.add(os.path.join(subdir, environment.build_filename))
+                option_file = self.coredata.options_files.get(subp_name)
+                if option_file:
+                    self.build_def_files.add(option_file[0])
+                raise
             # Those lists are shared by all interpreters. That means that
             # even if the subproject fails, any modification that the subproject
             # made to those lists will affect the parent project.
@@ -1082,7 +1092,12 @@ class Interpreter(InterpreterBase, HoldableObject):
             subi.subproject_stack = self.subproject_stack + [(subp_name, for_machine)]
             current_active = self.active_projectname
             with mlog.nested_warnings():
-                subi.run()
+                try:
+                    subi.run()
+                except Exception:
+                    # Same as above, for everything read until the failure
+                    self.build_def_files.update(subi.get_build_def_files())
+                    raise
                 subi_warnings = mlog.get_warning_count()
             mlog.log('Subproject', mlog.bold(subp_name), 'finished.')
 
